@@ -206,6 +206,16 @@ def _worker(args):
     return res
 
 
+def _worker_proc(conn, args):
+    try:
+        res = _worker(args)
+        conn.send(res)
+    finally:
+        conn.close()
+        # do not wait for stray (possibly spinning) threads of aborted Mode T runs
+        os._exit(0)
+
+
 def load_findings():
     try:
         with open(FINDINGS) as f:
@@ -396,14 +406,37 @@ def main_check(pid, tier, seed, budget_s=None):
     last_job = job_at(pid, seed, enum, total_jobs - 1)
     mpctx = multiprocessing.get_context("fork")
     results = []
-    with concurrent.futures.ProcessPoolExecutor(nw, mp_context=mpctx) as ex:
-        futs = [ex.submit(_worker, (pid, tier, seed, w, nw, deadline, hard)) for w in range(nw)]
-        for fu in futs:
-            try:
-                results.append(fu.result(timeout=max(hard - time.time(), 1) + 60))
-            except Exception as e:
-                print("HARNESS-ERROR: worker died: %r" % (e,))
-                return 2
+    dead = 0
+    # one process per worker and one pipe each (not a pool: when a worker dies -
+    # e.g. killed by its watchdog because the code under test hangs inside a
+    # thread - the results of the others must survive)
+    procs = []
+    for w in range(nw):
+        parent_conn, child_conn = mpctx.Pipe(duplex=False)
+        p = mpctx.Process(target=_worker_proc, args=(child_conn, (pid, tier, seed, w, nw, deadline, hard)), daemon=True)
+        p.start()
+        child_conn.close()
+        procs.append((p, parent_conn))
+    for p, conn in procs:
+        try:
+            limit = max(hard - time.time(), 1) + 90
+            if conn.poll(limit):
+                results.append(conn.recv())
+            else:
+                raise TimeoutError("no result within the hard wall cap")
+        except (EOFError, OSError, TimeoutError) as e:
+            dead += 1
+            print("HARNESS-ERROR: worker died: %r (exit code %r)" % (e, p.exitcode))
+            if p.is_alive():
+                p.kill()
+        finally:
+            conn.close()
+    for p, conn in procs:
+        p.join(5)
+        if p.is_alive():
+            p.kill()
+    if not results:
+        return 2
     # merge
     runs = sum(r["runs"] for r in results)
     cover = set()
@@ -449,6 +482,8 @@ def main_check(pid, tier, seed, budget_s=None):
         for h in harness[:3]:
             print("HARNESS-ERROR property=%s job=%d seed=%d %s: %s" % (pid, h[0], h[2], h[3], h[4]))
             print(h[5])
+    if dead:
+        rc = 2
     if det_bad:
         rc = 2
         print("HARNESS-ERROR property=%s nondeterministic runs (jobs %s)" % (pid, det_bad))
